@@ -18,6 +18,15 @@ type c02 struct {
 func newC02(w *World, m *Model) *c02 { return &c02{oracleBase: newBase("C02", w), m: m} }
 
 func (o *c02) Step(r *StepRec) []Violation {
+	// "if its designated provider responds in time ... the fee ... is added to that provider's earnings": a
+	// stateless-valid response by the designated provider to a request that still awaits one is a settlement
+	// and must go through (refused, the fee would go back to the consumer at expiry although the provider answered)
+	if a := r.Action; a.Kind == KRespond && !r.OK && r.VBErr == "" && !r.InTx {
+		if ri, known := o.m.Reqs[a.ReqID]; known && ri.Status == "pending" && a.Signer == ri.Provider {
+			o.fail("c02:response_refused", "the designated provider's response to the pending request %s (fee %d) was refused at height %d (expiry %d): %s%s",
+				short(a.ReqID), ri.Fee, r.Height, ri.ExpH, r.Err, r.Panic)
+		}
+	}
 	o.stepIn(r, "stake")
 	if o.w.cfg.FundingPoint != nil {
 		// the cases in which accounts hold a second coin: the same exact accounting in that coin
